@@ -83,6 +83,30 @@ def j1(led, rid, ctx):
     led.check(who <= {"add_asserting_nogood", "add_permanent_nogood"} and who, rid, "delete_ids-reused-when-storing",
               None, "freed ids are reused by %s" % sorted(who), "freed nogood ids are popped in %s" % sorted(who))
     j1_table(led, rid, ctx)
+    # a recycled id is taken off the free list when it is used: delete_ids is only pushed, popped,
+    # measured or cleared
+    ALLOWED = ("pop", "push", "len", "is_empty", "clear", "with_capacity", "new", "default", "reserve")
+    n_acc = 0
+    for g in lib.fns.values():
+        if "/nogoods/" not in g.file or "/tests" in g.file:
+            continue
+        if (g.impl_trait or "").rsplit("::", 1)[-1] in ("Clone", "Debug", "Default", "PartialEq"):
+            continue      # derived
+        Rg = None
+        for c in g.calls:
+            if not c.args:
+                continue
+            Rg = Rg or resolver(g)
+            e0 = Rg.operand(c.args[0])
+            fl = peel(e0, calls=None).fields()
+            if not fl or list(fl)[-1] != "delete_ids":
+                continue
+            n_acc += 1
+            led.check(c.name in ALLOWED, rid, "delete_ids:%s:%s" % (g.name, c.name), c.span, "pop / push only",
+                      "%s reads the free list of nogood ids with `%s`: the id is used but stays on the list, so "
+                      "the next nogood that is stored overwrites this one (a blocking clause or learned nogood "
+                      "disappears while its watchers stay)" % (g.name, c.name))
+    led.floor(rid, "accesses of delete_ids", n_acc, 3)
 
 
 def j1_table(led, rid, ctx):
@@ -290,6 +314,22 @@ def j7(led, rid, ctx):
               "the no-learning resolver backtracks to level %s (of L=%d) or enqueues before it backtracks" % (tgt, L0))
     # the reason: a range of levels
     reason = R.operand(e.args[2])
+    # every reason-less entry of a level belongs to the reason (an equality decision is stored as two
+    # bound updates): the per-level closure iterates and filters, it does not pick one entry
+    PICK = ("first", "last", "nth", "take", "skip", "step_by", "find", "position", "max", "min", "get",
+            "max_by_key", "min_by_key", "next", "peek", "find_map", "take_while", "skip_while")
+    for x in reason.walk():
+        if x.k != "closure":
+            continue
+        for g in [lib.fns.get(x.a)] if lib.fns.get(x.a) else []:
+            picks = [c.name for h in g.with_closures() for c in h.calls if c.name in PICK]
+            uses_level = any(c.name == "values_on_decision_level" for h in g.with_closures() for c in h.calls)
+            if uses_level:
+                led.check(not picks, rid, "no-learning:reason-takes-every-decision-entry", g.span,
+                          "iterates all entries of the level",
+                          "the reason of the flipped decision takes `%s` of each earlier level instead of every "
+                          "reason-less entry: half of an equality decision is dropped and an extracted core is "
+                          "weaker than the assumption it stands for" % (picks[0] if picks else ""))
     rngs = [x for x in reason.walk() if x.k == "agg" and (x.a or "").split("::")[-1] in ("Range", "RangeInclusive")]
     incl = [x for x in reason.walk() if x.k == "call" and x.a.name == "new" and "RangeInclusive" in (x.a.target_def or "")]
     hi = lo = None
@@ -311,6 +351,35 @@ def j7(led, rid, ctx):
               % (lo, hi, L0 - 1))
 
 
+def j10(led, rid, ctx):
+    """a permanent nogood is stored in its preprocessed form (root-satisfied predicates removed), so
+    that its two watched predicates are not already true"""
+    lib = ctx.lib
+    f = lib.method("NogoodPropagator", "add_permanent_nogood")
+    R = resolver(f)
+    cfg = f.cfg
+    pps = f.calls_named("preprocess_nogood")
+    led.check(len(pps) == 1, rid, "add_permanent_nogood:preprocesses", f.span, "",
+              "add_permanent_nogood no longer preprocesses the nogood")
+    if len(pps) != 1:
+        return
+    pp = pps[0]
+    src = peel(R.operand(pp.args[0]), calls=None)
+    src_s = show(src)
+    stores = f.calls_named("new_permanent_nogood")
+    led.floor(rid, "stores of a permanent nogood", len(stores), 1)
+    for c in stores:
+        e = R.operand(c.args[0])
+        via_copy = any(x.name in ("clone", "to_vec", "to_owned", "cloned", "copied") for x in e.calls())
+        root = peel(e, calls=("into", "from", "into_boxed_slice", "into_iter", "collect"))
+        same = show(peel(root, calls=None)) == src_s
+        led.check(same and not via_copy and cfg.dominates(pp.bb, c.bb), rid,
+                  "add_permanent_nogood:stores-preprocessed", c.span, "the vector preprocess_nogood worked on",
+                  "add_permanent_nogood stores %s rather than the preprocessed nogood: predicates that hold at "
+                  "the root stay in it and may end up as the two watched predicates, which never fire — the "
+                  "nogood (e.g. a blocking clause) is never enforced" % show(e)[:80])
+
+
 def run(ctx, led):
     run_rule(led, "J1", "a nogood is deleted only if not propagating, after both watchers are removed; "
              "freed ids are reused only when storing", j1, ctx)
@@ -324,3 +393,4 @@ def run(ctx, led):
     from . import minimiser
     run_rule(led, "J8", "semantic minimiser: every folding step maps the values a record stands for to exactly those satisfying the folded predicate (decided on all records of a 5-value window)", minimiser.steps_exact, ctx)
     run_rule(led, "J9", "semantic minimiser: the emitted predicates describe the record exactly relative to the root domain; holes leave the bounds before redundant holes are dropped", minimiser.emission_exact, ctx)
+    run_rule(led, "J10", "a permanent nogood is stored in its preprocessed form", j10, ctx)
